@@ -341,6 +341,18 @@ func peerResetReleaseScenario(a, b epCfg) *Scenario {
 			cb := 0
 			s2.SetBufferedAmountLowThreshold(10)
 			s2.OnBufferedAmountLow(func() { cb++ })
+			// the stream that gets unregistered has a callback too: it is entered without
+			// internal locks (it calls back into the association) like any other
+			cb1 := 0
+			s1.SetBufferedAmountLowThreshold(10)
+			s1.OnBufferedAmountLow(func() {
+				if held := m.S.HeldClasses(); len(held) > 0 {
+					m.Failf("callback.locks", "OnBufferedAmountLow of a stream the peer has reset was invoked with internal locks held: %v", held)
+					return // calling back would deadlock
+				}
+				_ = m.As[0].BufferedAmount()
+				cb1++
+			})
 			for _, s := range []*Stream{sb1, sb2} {
 				s := s
 				m.Go(fmt.Sprintf("rd%d", s.streamIdentifier), func() {
@@ -357,6 +369,8 @@ func peerResetReleaseScenario(a, b epCfg) *Scenario {
 			m.Sleep(100 * time.Millisecond)
 			_ = sb1.Close() // the peer resets its sending direction of stream 1
 			ok := m.WaitUntil("drained", 30*time.Second, func() bool { return drained(m.As[0]) })
+			// (the queues empty before the read loop has told the streams: let it finish the SACK)
+			m.S.WaitIdle()
 			if !ok {
 				m.Failf("stall", "A never drained: buffered=%d", bufAmt(m.As[0]))
 			} else {
@@ -365,6 +379,8 @@ func peerResetReleaseScenario(a, b epCfg) *Scenario {
 				}
 				if b1 := s1.BufferedAmount(); b1 != 0 {
 					m.Failf("buffered.zero", "stream 1 (unregistered by the peer's reset while its data was in flight): BufferedAmount=%d although everything was acknowledged", b1)
+				} else if cb1 == 0 {
+					m.Failf("callback.missing", "stream 1: the amount fell from 300 to 0 across the threshold 10 without a callback")
 				}
 				if b2 := s2.BufferedAmount(); b2 != 0 {
 					m.Failf("buffered.zero", "stream 2: BufferedAmount=%d although everything was acknowledged (a SACK that also covered chunks of the reset stream 1 did not release it)", b2)
